@@ -12,7 +12,7 @@ from warnings import warn
 import jax.numpy as jnp
 import numpy as np
 import pandas as pd
-from jax import jit, vmap
+from jax import ensure_compile_time_eval, jit, vmap
 from jax.lax import ScatterDimensionNumbers, scatter_add
 from matplotlib.axes import Axes
 
@@ -802,22 +802,30 @@ class Module(ABC):
         they can be processed on GPU/TPU and such that the simulation can be
         differentiated. `.to_jax()` copies the `.nodes` to `.jaxnodes`.
         """
-        self.base.jaxnodes = {}
-        for key, value in self.base.nodes.to_dict(orient="list").items():
-            inds = jnp.arange(len(value))
-            self.base.jaxnodes[key] = jnp.asarray(value)[inds]
+        # `.jaxnodes` and `.jaxedges` only depend on `.nodes` and `.edges`: evaluate them
+        # concretely, such that no tracers are stored in the module if `to_jax()` runs
+        # within `jit`.
+        with ensure_compile_time_eval():
+            self.base.jaxnodes = {}
+            for key, value in self.base.nodes.to_dict(orient="list").items():
+                inds = jnp.arange(len(value))
+                self.base.jaxnodes[key] = jnp.asarray(value)[inds]
 
-        # `jaxedges` contains only parameters (no indices).
-        # `jaxedges` contains only non-Nan elements. This is unlike the channels where
-        # we allow parameter sharing.
-        self.base.jaxedges = {}
-        edges = self.base.edges.to_dict(orient="list")
-        for i, synapse in enumerate(self.base.synapses):
-            condition = np.asarray(edges["type_ind"]) == i
-            for key in synapse.synapse_params:
-                self.base.jaxedges[key] = jnp.asarray(np.asarray(edges[key])[condition])
-            for key in synapse.synapse_states:
-                self.base.jaxedges[key] = jnp.asarray(np.asarray(edges[key])[condition])
+            # `jaxedges` contains only parameters (no indices).
+            # `jaxedges` contains only non-Nan elements. This is unlike the channels
+            # where we allow parameter sharing.
+            self.base.jaxedges = {}
+            edges = self.base.edges.to_dict(orient="list")
+            for i, synapse in enumerate(self.base.synapses):
+                condition = np.asarray(edges["type_ind"]) == i
+                for key in synapse.synapse_params:
+                    self.base.jaxedges[key] = jnp.asarray(
+                        np.asarray(edges[key])[condition]
+                    )
+                for key in synapse.synapse_states:
+                    self.base.jaxedges[key] = jnp.asarray(
+                        np.asarray(edges[key])[condition]
+                    )
 
     def show(
         self,
